@@ -948,6 +948,44 @@ pub fn space_n(full: bool, depth: usize, f: &mut dyn FnMut(u64, &[u8])) -> u64 {
     idx
 }
 
+/// S3r: loops around exactly three statements from the additive subset (x+=y destructive,
+/// x+=y preserving, x+=2y): cyclic dependencies between cells inside one iteration.
+pub fn space_s3_reduced(f: &mut dyn FnMut(u64, &[u8])) -> u64 {
+    let stmts: Vec<Stmt> = all_stmts().into_iter().filter(|s| matches!(s, Stmt::AddD(..) | Stmt::AddP(..) | Stmt::Add2(..))).collect();
+    let pieces: Vec<Vec<u8>> = stmts
+        .iter()
+        .map(|s| {
+            let mut v = Vec::new();
+            s.emit(&mut v);
+            v
+        })
+        .collect();
+    let mut idx = 0u64;
+    let mut prog = Vec::new();
+    let mut body = Vec::new();
+    for a in &pieces {
+        for b in &pieces {
+            for c in &pieces {
+                body.clear();
+                body.extend_from_slice(a);
+                body.extend_from_slice(b);
+                body.extend_from_slice(c);
+                for prefix in PREFIXES {
+                    for shape in SHAPES {
+                        prog.clear();
+                        prog.extend_from_slice(prefix.as_bytes());
+                        emit_loop(&mut prog, shape, 0, &body);
+                        prog.extend_from_slice(EPILOGUE.as_bytes());
+                        f(idx, &prog);
+                        idx += 1;
+                    }
+                }
+            }
+        }
+    }
+    idx
+}
+
 /// SP: prefix · loop around <= 1 statement · one statement *after* the loop · epilogue. Values
 /// computed inside a conditional block and (wrongly) reused after it need code after the block.
 pub fn space_sp(f: &mut dyn FnMut(u64, &[u8])) -> u64 {
